@@ -282,3 +282,50 @@ Proof.
   - intros t u a. rewrite !Ht. apply W2.
   - intros t a. rewrite Ht. intros H. apply W3 in H. cbn. unfold stub. repeat split; try lia; tauto.
 Qed.
+
+Ltac thr_cases u t :=
+  destruct (Nat.eq_dec u t) as [->|?];
+  [ rewrite ?upd_same in * | rewrite ?(upd_other _ t _ u) in * by assumption ].
+
+Ltac inv_split I :=
+  destruct I as [If Ipp Iwp Iwk Iuni Ipre Ilen Ialog Itail Itnext Ilink Ind Inz Idata Ipnd Ipend Itdnd Itddis Itd].
+
+(* a step that only changes thread t's private state, outside push *)
+Lemma local_step s al pl hl pe w t T' :
+  Inv s al pl hl pe w ->
+  holdsb (thr s t) = false -> holdsb T' = false ->
+  flag T' = flag (thr s t) -> todo T' = todo (thr s t) ->
+  ppart (next s) pl pe T' ->
+  (flag T' = true -> wpart (head s) (inc s) (outc s) al pl hl T') ->
+  Inv (set_thr s t T') al pl hl pe w.
+Proof.
+  intros I H1 H2 Hf Ht Hp Hw. inv_split I.
+  constructor; cbn [set_thr head tail inc outc next data thr]; try assumption.
+  - intros u. thr_cases u t; auto. rewrite Hf; auto.
+  - intros u. thr_cases u t; auto.
+  - intros u. thr_cases u t; auto.
+  - intros u v. thr_cases u t; thr_cases v t; auto; congruence.
+  - intros i Hi. destruct (Ilink i Hi) as [L|[u (A & B & C)]]; [left; exact L|right].
+    exists u. assert (u <> t). { intros ->. unfold holdsb in H1. rewrite A in H1. discriminate. }
+    rewrite upd_other by assumption. auto.
+  - intros u. thr_cases u t; auto. rewrite Ht; auto.
+  - intros u v a. thr_cases u t; thr_cases v t; rewrite ?Ht; auto. all: fail.
+  - intros u a. thr_cases u t; rewrite ?Ht; auto.
+Qed.
+
+Lemma holds_in s al pl hl pe w u :
+  Inv s al pl hl pe w -> holdsb (thr s u) = true ->
+  In (arg (thr s u)) pe \/ In (arg (thr s u)) (stub :: pl).
+Proof.
+  intros I H. assert (P := i_pp _ _ _ _ _ _ I u). unfold ppart in P. unfold holdsb in H.
+  destruct (pc (thr s u)); try discriminate.
+  - auto.
+  - left. tauto.
+  - right. destruct P as [[i (Hi & _ & E)] _]. rewrite <- E. apply cn_in. lia.
+Qed.
+
+Lemma worker_unique s al pl hl pe w t u :
+  Inv s al pl hl pe w -> flag (thr s t) = true -> flag (thr s u) = true -> t = u.
+Proof.
+  intros I A B. apply (i_flag _ _ _ _ _ _ I) in A. apply (i_flag _ _ _ _ _ _ I) in B. congruence.
+Qed.
